@@ -124,3 +124,37 @@ def gsReentrant : GSRules := ⟨.repaired, .reentrant⟩
 def egReentrant : EGRules := ⟨.reentrant, .repaired⟩
 
 end Lifecycle
+
+/-! ## review R2: totalisation facts about the driver glue and generic "identity step" lemmas -/
+
+namespace Lifecycle
+namespace Machine
+variable {σ : Type}
+
+/-- one trace record per operation: nothing is dropped or invented -/
+theorem traceFrom_length (M : Machine σ) : ∀ (ops : List Op) (s : σ), (M.traceFrom s ops).length = ops.length := by
+  intro ops
+  induction ops with
+  | nil => intro s; rfl
+  | cons o os ih => intro s; simp [traceFrom, ih]
+
+theorem view_length (M : Machine σ) (c : σ → Cls) (ops : List Op) : (M.view c ops).length = ops.length := by
+  simp [view, trace, traceFrom_length]
+
+/-- an operation whose step is the identity on states can be dropped from the end of a history -/
+theorem run_snoc_of_step_id (M : Machine σ) (o : Op) (h : ∀ s, (M.step s o).1 = s) (ops : List Op) :
+    M.run (ops ++ [o]) = M.run ops := by
+  rw [run_snoc, h]
+
+end Machine
+
+/-- `changedCol` has one entry per operation, so the `zip` inside `fmtView` truncates nothing -/
+theorem changedCol_length {σ π : Type} [DecidableEq π] (M : Machine σ) (params : σ → π) (name : String)
+    (ops : List Op) : (changedCol M params name ops).length = ops.length := by
+  simp [changedCol, Machine.trace, Machine.traceFrom_length]
+
+theorem onlyAtFit_length (ops : List Op) (cs : List String) (h : cs.length = ops.length) :
+    (onlyAtFit ops cs).length = ops.length := by
+  simp [onlyAtFit, h]
+
+end Lifecycle
